@@ -247,7 +247,7 @@ def build_program(spec, seed=0, positive=False):
     """-> (nn.Module with dyadic generic weights, input shape without batch)"""
     fam = spec['fam']
     kw = {k: v for k, v in spec.items() if k not in ('fam', 'pit', 'id', 'tier', 'seed', 'selftest', 'T', 'exclude')}
-    if fam in ('F1', 'K2') and 'T' in spec:
+    if fam in ('F1', 'K2', 'T2') and 'T' in spec:
         kw['T'] = spec['T']
     if fam == 'K1' and 'origins' in kw:
         kw['origins'] = tuple(kw['origins'])
